@@ -6,6 +6,9 @@ mod consts;
 mod consts_more;
 mod c04;
 mod c17;
+mod c18;
+mod c18_wdt;
+mod c18_wdl;
 
 use common::*;
 use std::path::PathBuf;
@@ -57,6 +60,7 @@ fn main() {
             match prop.as_str() {
                 "C04" => c04::run(&mut ctx),
                 "C17" => c17::run(&mut ctx),
+                "C18" => c18::run(&mut ctx),
                 _ => {
                     eprintln!("unknown property {prop}");
                     std::process::exit(2);
